@@ -266,6 +266,24 @@ def consumers_ob():
                             f0.of(da).get(SInt(H.I))
                             out['feature:%s:all after use with a %s instrument' % (fname, Dprev)] = f0.of(db).get(None)
                             out['feature:%s:i after use with a %s instrument' % (fname, Dprev)] = f0.of(db).get(SInt(H.I))
+                        # call history on ONE object: evaluated in another dtype, then cast, then evaluated again (nothing computed before the cast may survive it)
+                        dc = H.mk_derivative(dtype=Dprev)
+                        fbound = {fname: get_feature(H.FEATURES[fname][0]()).of(dc) for fname in ('time_to_maturity', 'expiry_time', 'log_moneyness', 'max_log_moneyness', 'volatility', 'variance')}
+                        for f_ in fbound.values():
+                            f_.get(None)
+                            f_.get(SInt(H.I))
+                        dc.time_to_maturity(); dc.time_to_maturity(SInt(H.I)); dc.moneyness(); dc.max_log_moneyness(); dc.payoff(); dc.ul().volatility; dc.ul().variance
+                        dc.to(D)
+                        out['time_to_maturity() after an evaluation in %s and a cast' % Dprev] = dc.time_to_maturity()
+                        out['time_to_maturity(i) after an evaluation in %s and a cast' % Dprev] = dc.time_to_maturity(SInt(H.I))
+                        out['moneyness after an evaluation in %s and a cast' % Dprev] = dc.moneyness()
+                        out['max_log_moneyness after an evaluation in %s and a cast' % Dprev] = dc.max_log_moneyness()
+                        out['payoff after an evaluation in %s and a cast' % Dprev] = dc.payoff()
+                        out['stock volatility after an evaluation in %s and a cast' % Dprev] = dc.ul().volatility
+                        out['stock variance after an evaluation in %s and a cast' % Dprev] = dc.ul().variance
+                        for fname, f_ in fbound.items():
+                            out['bound feature %s (all steps) after an evaluation in %s and a cast' % (fname, Dprev)] = f_.get(None)
+                            out['bound feature %s (step i) after an evaluation in %s and a cast' % (fname, Dprev)] = f_.get(SInt(H.I))
                         bsa = pnn.BlackScholes(da)
                         hprev = pnn.Hedger(bsa, bsa.inputs())
                         hprev.compute_hedge(da)
@@ -340,6 +358,16 @@ for default in (torch.float32, torch.float64):
             vals["history f:" + fn_] = f0.of(d).get(None); vals["history fi:" + fn_] = f0.of(d).get(1)
         bsa = pnn.BlackScholes(da); hp = pnn.Hedger(bsa, bsa.inputs()); hp.compute_hedge(da)
         vals["history hedge"] = hp.compute_hedge(d)
+        # call history on one object: evaluated in the other dtype, cast, evaluated again
+        uc = pi.BrownianStock(dtype=Dp); dc = pi.EuropeanOption(uc); dc.simulate(n_paths=3)
+        fb = {fn_: get_feature(fn_).of(dc) for fn_ in ("time_to_maturity", "expiry_time", "log_moneyness", "max_log_moneyness", "volatility", "variance")}
+        for f_ in fb.values(): f_.get(None); f_.get(1)
+        dc.time_to_maturity(); dc.time_to_maturity(1); dc.moneyness(); dc.max_log_moneyness(); dc.payoff(); uc.volatility; uc.variance
+        dc.to(D)
+        vals.update({"cast: ttm": dc.time_to_maturity(), "cast: ttm_i": dc.time_to_maturity(1), "cast: moneyness": dc.moneyness(), "cast: max_log_moneyness": dc.max_log_moneyness(),
+                     "cast: payoff": dc.payoff(), "cast: stock volatility": uc.volatility, "cast: stock variance": uc.variance})
+        for fn_, f_ in fb.items():
+            vals["cast: bound feature " + fn_] = f_.get(None); vals["cast: bound feature (step) " + fn_] = f_.get(1)
         for k, v in vals.items():
             if v.dtype != D: bad.append((str(default), str(D), k, str(v.dtype)))
 torch.set_default_dtype(torch.float32)
